@@ -1,26 +1,7 @@
 #![allow(dead_code, unused_imports, unused_variables)]
-mod backend;
-mod blind;
-mod corrupt;
-mod memtrack;
-mod engine;
-mod fault;
-mod engine_handles;
-mod engine_ops;
-mod gen;
-mod model;
-mod names;
-mod ops;
-mod props;
-mod refparse;
-mod run;
-mod sched;
-mod runner;
-mod synth;
-mod upper_table;
-mod util;
 
-use runner::Tier;
+use cfbverif::runner::Tier;
+use cfbverif::{memtrack, props, runner, util};
 use std::path::PathBuf;
 
 #[global_allocator]
@@ -43,6 +24,11 @@ fn real_main(args: &[String]) -> i32 {
         return usage();
     }
     match args[0].as_str() {
+        "gen-corpus" if args.len() >= 3 => {
+            let n = cfbverif::fuzzrun::gen_corpus(&args[1], &PathBuf::from(&args[2]), 80);
+            println!("{} corpus files written to {}", n, args[2]);
+            0
+        }
         "list" => {
             for d in props::all() {
                 println!("{}", d.id);
